@@ -109,7 +109,8 @@ vh::Outcome run_locks(const vh::Case& c, Prop prop) {
 
     out.res = vrt::run(c.sched, [&] {
         W* wp;
-        if constexpr (optw) wp = new W(enabled, uint64_t(0)); else wp = new W(uint64_t(0));
+        bool rv = ctor_from_rvalue(c);
+        if constexpr (optw) wp = rv ? new W(enabled, Tracked(uint64_t(0))) : new W(enabled, uint64_t(0)); else wp = rv ? new W(Tracked(uint64_t(0))) : new W(uint64_t(0));
         std::unique_ptr<W> wown(wp);
         W& w = *wp;
         vrt::MutexCore* core = vrt::rt().mutexes.empty() ? nullptr : vrt::rt().mutexes[0];
